@@ -106,3 +106,124 @@ Proof.
   assert (H := fun h1 h2 => local_chain_ok _ _ Hz Hc _ _ _ _ h1 h2 LocalExample.ex_chain (fun H => H)).
   apply H; vm_compute; discriminate.
 Qed.
+
+(* ====================================================================== *)
+(* network modes: chains that continue upstream                             *)
+(* (lemmas: Resolver/RecursiveProofs.v, Resolver/ForwardingProofs.v)        *)
+(* ====================================================================== *)
+From RV Require Import Wire.WireModel Resolver.ValidateModel Resolver.TransportModel Resolver.RecursiveModel
+     Resolver.ForwardingModel Resolver.Universe Resolver.RecursiveProofs Resolver.ForwardingProofs.
+
+(* recursive_chain_ok.  For a question of a type other than CNAME and ANY every successful result of
+   the recursive resolver lists the CNAMEs first, each owner the previous record's target, starting
+   at the question name, followed only by records of the asked type owned by the last target
+   ([chain_shape] = [chain_ok] without its "no owner twice" clause, see below) -- whatever mix of
+   zones, cache and upstream replies supplied the links: every oracle, every fuel.  The
+   concatenations in resolve_combined_recursive / resolve_with_nameserver_response preserve the shape
+   because the filter CONSTRUCTS a chain for every reply (C06_filter_chain_ok) and because the
+   records "combined" from a Partial local result are none unless the question is ANY
+   (C10_partial_only_for_any).  Hypotheses about the two local sources as in C10_local_chain_ok, for
+   every cache state. *)
+Theorem C10_recursive_chain_ok :
+  forall (cache : Type) (cache_get : cache -> dname -> N -> list rr) (cache_insert_all : cache -> list rr -> cache)
+         (sort_names : list dname -> list dname) (zs : zones) (o : oracle) (pmode : protocol_mode) (port : N),
+  zones_answers_ok zs -> (forall c, cget_ok (cache_get c)) ->
+  forall fuel q st res st', q_type q <> RT_CNAME -> q_type q <> QT_Wildcard ->
+  resolve_recursive cache cache_get cache_insert_all sort_names zs o pmode port fuel q st = (Ok res, st') ->
+  exists cn fin last, resolved_rrs res = cn ++ fin /\ chain_from (q_name q) cn = Some last
+    /\ Forall (fun r => rr_name r = last /\ rr_type r = q_type q) fin.
+Proof. exact recursive_chain_shape. Qed.
+Print Assumptions C10_recursive_chain_ok.
+
+(* forwarding_chain_ok.  The forwarder's answer section is passed through unfiltered (deviation D6),
+   so its shape is a hypothesis: every reply of the forwarder that passes the header gate carries
+   such a chain for its question. *)
+Theorem C10_forwarding_chain_ok :
+  forall (cache : Type) (cache_get : cache -> dname -> N -> list rr) (cache_insert_all : cache -> list rr -> cache)
+         (zs : zones) (o : oracle) (forwarder : addr),
+  zones_answers_ok zs -> (forall c, cget_ok (cache_get c)) ->
+  (forall q ts resp ts', query_nameserver o forwarder q true ts = (Val (Some resp), ts') ->
+     chain_shape (q_name q) (q_type q) (m_answers resp)) ->
+  forall fuel q st res st', q_type q <> RT_CNAME -> q_type q <> QT_Wildcard ->
+  resolve_forwarding cache cache_get cache_insert_all zs o forwarder fuel q st = (Ok res, st') ->
+  exists cn fin last, resolved_rrs res = cn ++ fin /\ chain_from (q_name q) cn = Some last
+    /\ Forall (fun r => rr_name r = last /\ rr_type r = q_type q) fin.
+Proof. exact forwarding_chain_shape. Qed.
+Print Assumptions C10_forwarding_chain_ok.
+
+(* a Partial local result arises only for QTYPE * -- so for every other question the records merged
+   in front of the upstream answer (prioritising_merge of combined_rrs) are none *)
+Theorem C10_partial_only_for_any : forall zs cget f stack q rrs,
+  q_type q <> QT_Wildcard -> resolve_local zs cget f stack q <> Ok (LPartial rrs).
+Proof. exact no_partial. Qed.
+Print Assumptions C10_partial_only_for_any.
+
+(* an alias result of local resolution hands on exactly the chain so far: its records are the CNAME
+   chain from the question name to the name still to be resolved *)
+Theorem C10_local_alias_chain : forall zs cget, zones_answers_ok zs -> cget_ok cget ->
+  forall f stack q rrs cq, q_type q <> QT_Wildcard ->
+  resolve_local zs cget f stack q = Ok (LCname rrs cq) ->
+  chain_from (q_name q) rrs = Some (q_name cq) /\ cq = subq q (q_name cq).
+Proof. exact local_alias. Qed.
+Print Assumptions C10_local_alias_chain.
+
+(* SimpleCache meets the cache hypothesis *)
+Theorem C10_simple_cache_ok : forall c, cget_ok (sc_get c).
+Proof. exact sc_get_ok. Qed.
+Print Assumptions C10_simple_cache_ok.
+
+(* ---- the "no owner twice" clause is FALSE for the recursive resolver when upstream contradicts
+   itself: a witness.  10.0.0.1 (the root hint) answers www.com. A with
+       www.com. CNAME a.com.   a.com. CNAME b.com.
+   and then b.com. A with
+       b.com. CNAME a.com.     a.com. CNAME c.com.    c.com. A 1.2.3.4
+   Each reply is a proper chain for its question and the question stack never repeats
+   (www.com., b.com.), but the alias a.com. is followed twice, to two different targets, and the
+   result lists the owner a.com. twice.  [chain_ok] (C10_local_chain_ok) therefore fails for it
+   while the shape proved above holds. *)
+Definition c10_nm (ls : list label) : dname :=
+  {| labels := ls ++ [[]]; nlen := fold_right (fun l acc => 1 + llen l + acc) 1 ls |}.
+Definition c10_root := c10_nm [].
+Definition c10_ns := c10_nm [[110; 115]].                          (* ns. *)
+Definition c10_n (c : N) := c10_nm [[c]; [99; 111; 109]].          (* <c>.com. *)
+Definition c10_www := c10_nm [[119; 119; 119]; [99; 111; 109]].    (* www.com. *)
+Definition c10_rr (n : dname) (t : N) (d : rdata) : rr :=
+  {| rr_name := n; rr_type := t; rr_class := RC_IN; rr_ttl := 300; rr_data := d |}.
+Definition c10_ip : N := 167772161.
+Definition c10_hints : zones :=
+  match (let* z1 := zone_insert false (zone_new c10_root None) c10_root RT_NS (RD_Name c10_ns) 3600 in
+         zone_insert false z1 c10_ns RT_A (RD_A c10_ip) 3600) with
+  | Ok z => zones_insert [] z
+  | _ => []
+  end.
+Definition c10_q (n : dname) : question := {| q_name := n; q_type := RT_A; q_class := RC_IN |}.
+Definition c10_msg (q : question) (an : list rr) : list byte :=
+  match encode (reply_message q {| sr_answers := an; sr_authority := []; sr_additional := []; sr_aa := true;
+                                   sr_rcode := RCODE_NoError |}) with
+  | Ok bs => bs
+  | _ => []
+  end.
+Definition c10_table : table :=
+  [ ((inl c10_ip, c10_q c10_www),
+     c10_msg (c10_q c10_www) [c10_rr c10_www RT_CNAME (RD_Name (c10_n 97)); c10_rr (c10_n 97) RT_CNAME (RD_Name (c10_n 98))]);
+    ((inl c10_ip, c10_q (c10_n 98)),
+     c10_msg (c10_q (c10_n 98)) [c10_rr (c10_n 98) RT_CNAME (RD_Name (c10_n 97)); c10_rr (c10_n 97) RT_CNAME (RD_Name (c10_n 99));
+                                 c10_rr (c10_n 99) RT_A (RD_A 16909060)]) ].
+Definition c10_run :=
+  resolve_simple (ModeRecursive OnlyV4) 53 c10_hints (table_oracle c10_table []) 200%nat (c10_q c10_www) (sc_empty, tstate_init).
+Definition c10_result : list rr :=
+  [c10_rr c10_www RT_CNAME (RD_Name (c10_n 97)); c10_rr (c10_n 97) RT_CNAME (RD_Name (c10_n 98));
+   c10_rr (c10_n 98) RT_CNAME (RD_Name (c10_n 97)); c10_rr (c10_n 97) RT_CNAME (RD_Name (c10_n 99));
+   c10_rr (c10_n 99) RT_A (RD_A 16909060)].
+
+Example C10_recursive_owner_twice :
+  fst c10_run = Ok (NonAuthoritative c10_result None)
+  /\ ~ chain_ok c10_www RT_A c10_result
+  /\ chain_shape c10_www RT_A c10_result.
+Proof.
+  split; [vm_compute; reflexivity|]. split.
+  - intro H. apply chain_ok_cname_owners in H; [|discriminate]. vm_compute in H. discriminate.
+  - exists (firstn 4 c10_result), (skipn 4 c10_result), (c10_n 99).
+    split; [reflexivity|]. split; [vm_compute; reflexivity|]. repeat constructor.
+Qed.
+Print Assumptions C10_recursive_owner_twice.
